@@ -48,6 +48,9 @@ class C01(PureCheck):
                 a = [rng.randrange(9), rng.randrange(9)] + [rng.randrange(3) for _ in range(6)]
                 yield {"runs": [[enc.enc_text(TEXTS[k % len(TEXTS)]), a]]}
             nmulti = 3000
+        for k in range(600 if tier == "quick" else 6000):
+            a = [rng.choice([0, 2, 5]), rng.choice([0, 0, 4])] + [rng.choice([0, 1, 1, 2]) for _ in range(6)]
+            yield {"runs": [[enc.enc_text(TEXTS[k % len(TEXTS)]), a]], "twin": 1}
         for k in range(nmulti):
             n = rng.choice([0, 2, 2, 3, 3, 4])
             runs = []
@@ -66,9 +69,15 @@ class C01(PureCheck):
             yield {"runs": runs, "derive": derive[k % len(derive)], "render_first": int(k % 3 != 0)}
 
     def execute(self, inp):
-        from curtsies.formatstring import fmtstr, FmtStr
+        from curtsies.formatstring import fmtstr, FmtStr, Chunk
         f = FmtStr()
         runs = inp["runs"]
+        if inp.get("twin"):
+            # another object - the same runs with styles given as the ints 0 / 1 instead of False / True - was rendered
+            # earlier in the process: what that displayed says nothing about the value under test
+            for t, a in runs:
+                d = {k: (int(v) if isinstance(v, bool) else v) for k, v in enc.dec_atts(a).items()}
+                str(FmtStr(Chunk(enc.dec_text(t), d)))
         if len(runs) == 1:
             f = fmtstr(enc.dec_text(runs[0][0]), **enc.dec_atts(runs[0][1]))
         else:
